@@ -47,6 +47,14 @@ type CallSc struct {
 	CancelYields int    `json:"cancel_yields,omitempty"`
 	TimeoutMs    int    `json:"timeout_ms,omitempty"`
 	ObserveK     int    `json:"observe_k,omitempty"` // "observe": context becomes cancelled at its k-th observation
+	// Via: the public entry point used for a request/batch: "" Client.Request / Client.Batch | "roundtrip"
+	// Client.Roundtrip with a hand-built message | "exec" the fluent builder (single requests)
+	Via string `json:"via,omitempty"`
+}
+
+// genVia draws the entry point of a call.
+func genVia(g *simrt.Tape) string {
+	return []string{"", "", "", "roundtrip", "roundtrip", "exec"}[g.Draw(6)]
 }
 
 type CallerSc struct {
@@ -381,7 +389,30 @@ func (w *clientWorld) doCall(caller, idx int, cs CallSc, suffix bool) *callRec {
 		pls = append(pls, &payloads.ActivateRequestPayload{UniqueIdentifier: tok})
 	}
 	w.s.Eventf("call c%d/%d start", caller, idx)
-	if cs.Kind == "batch" {
+	if cs.Via == "roundtrip" {
+		msg := kmip.NewRequestMessage(w.client.Version(), pls...)
+		resp, err := w.client.Roundtrip(ctx, &msg)
+		rec.err = err
+		if err == nil && resp == nil {
+			rec.got = append(rec.got, "<nil response>")
+		} else if err == nil {
+			for _, bi := range resp.BatchItem {
+				if p, ok := bi.ResponsePayload.(*payloads.ActivateResponsePayload); ok && bi.ResultStatus == kmip.ResultStatusSuccess {
+					rec.got = append(rec.got, p.UniqueIdentifier)
+				} else {
+					rec.got = append(rec.got, fmt.Sprintf("<%T status=%v>", bi.ResponsePayload, bi.ResultStatus))
+				}
+			}
+		}
+	} else if cs.Via == "exec" && cs.Kind != "batch" {
+		res, err := w.client.Activate(rec.tokens[0]).ExecContext(ctx)
+		rec.err = err
+		if err == nil && res != nil {
+			rec.got = append(rec.got, res.UniqueIdentifier)
+		} else if err == nil {
+			rec.got = append(rec.got, "<nil payload>")
+		}
+	} else if cs.Kind == "batch" {
 		res, err := w.client.Batch(ctx, pls...)
 		rec.err = err
 		if err == nil {
